@@ -13,3 +13,5 @@ GROUPS = [H(n) for n in ['read', 'readv', 'recv', 'recvfrom', 'recvmsg', 'write'
 ASSUMPTIONS = ['the kernel behind the fibershim_* pointers may return anything POSIX allows; a descriptor outside [0, max_fd) fails with EBADF',
                'fiber_wait_for_event / fiber_fd_closed by contract in the shim proofs; their real bodies are proved against an abstract epoll in event.c (waiter-list walks bounded: <= 2 parked fibers); the blocking mode of the observed descriptor is not changed by another fiber during the call',
                'kernel readiness delivery (epoll) is not modelled: "a blocked fiber is always resumed" is decided only as far as the wait/wake contracts go']
+# obligation groups of other properties' specifications that this property also rests on (its anchors name those files); see DESIGN.md 11.2
+IMPORTS = [dict(prop='C01', groups=['maintenance', 'maintenance_migrating_unlock'])]
